@@ -57,11 +57,21 @@ struct Worker {
     stderr_path: String,
 }
 
+/// Markers of a sanitizer report in a worker's stderr (ASan, valgrind with --error-markers).
+pub const SAN_MARKERS: [&str; 3] = ["AddressSanitizer", "VCHECK-VG-BEGIN", "runtime error:"];
+
 fn spawn_worker(exe: &Path, idx: usize, scratch: &str, mem_cap: usize) -> Result<Worker, String> {
     let stderr_path = format!("{scratch}/worker-{}-{idx}.stderr", std::process::id());
     let f = std::fs::File::create(&stderr_path).map_err(|e| e.to_string())?;
-    let mut child = Command::new(exe)
+    // `exe` may be a launcher line: "valgrind -q ... /path/vcheck" (split on spaces)
+    let exe_text = exe.to_string_lossy().to_string();
+    let mut parts = exe_text.split(' ').filter(|p| !p.is_empty());
+    let program = parts.next().unwrap_or("");
+    let pre: Vec<&str> = parts.collect();
+    let mut child = Command::new(program)
+        .args(pre)
         .arg("worker")
+        .env("ASAN_OPTIONS", "detect_leaks=0:halt_on_error=1:abort_on_error=1:detect_stack_use_after_return=0")
         .env("VCHECK_MEM_CAP", mem_cap.to_string())
         .stdin(Stdio::piped())
         .stdout(Stdio::piped())
@@ -121,6 +131,17 @@ pub fn run_isolated(exe: &Path, cases: &[Value], n_workers: usize, scratch: &str
                         read_reply(w, timeout)
                     };
                     let dead = !matches!(res, CaseResult::Done(_));
+                    // a sanitizer that keeps going (valgrind) reports on stderr while the case completes
+                    let res = match res {
+                        CaseResult::Done(mut v) => {
+                            let t = tail(&w.stderr_path, 6000);
+                            if SAN_MARKERS.iter().any(|m| t.contains(m)) {
+                                v["sanitizer_report"] = json!(t);
+                            }
+                            CaseResult::Done(v)
+                        }
+                        other => other,
+                    };
                     results.lock().unwrap()[k] = Some(res);
                     if dead {
                         if let Some(mut w) = worker.take() {
